@@ -196,6 +196,24 @@ def run(chk, replay=None):
         raise Machinery("vacuous: no lineshape factor compared")
     for clause, t, info in tvd.rejects:
         chk.violation(f"lineshape-factor:{clause}", f"{clause}: {str(info)[:600]}", {"records": [r for r in drecs if r["tid"] == t and r["ev"] != "Start"]})
+    # the reaction-level operators the coherent / incoherent structure rests on (group_by_spin_projection, group_by_topology,
+    # get_outer_state_ids, get_prefactor, get_helicity_info, get_sorted_states), judged by Trace_Reaction
+    from .. import reaction_ops
+
+    rrecs, rlabel, seen_r = [], {}, set()
+    for label, reaction, cfg, model, rec in cases:
+        if id(reaction) in seen_r or len(reaction.transitions) > 150:
+            continue
+        seen_r.add(id(reaction))
+        rlabel[len(rrecs)] = label
+        rrecs.append(reaction_ops.reaction_record(len(rrecs), reaction))
+    tvr = trace.validate("Trace_Reaction", rrecs, timeout=1500)
+    chk.add_tlc("trace_reaction_operators", tvr.res, traces=len(rrecs))
+    chk.part("reaction_operators", reactions=len(rrecs), stats=tvr.stats)
+    if tvr.stats.get("coherent-groups-with-several-members", 0) == 0 or tvr.stats.get("topology-groups", 0) <= len(rrecs):
+        raise Machinery(f"vacuous: no coherent group with several members / no reaction with several topologies ({tvr.stats})")
+    for clause, rid, info in tvr.rejects:
+        chk.violation(f"reaction-operator:{clause}", f"{clause} rejected for {rlabel.get(rid)}: {str(info)[:500]}", {"label": rlabel.get(rid)})
     worst, n = numeric_law(chk, cases, rng, 12 if tier == "thorough" else 4)
     chk.part("numeric_law", models=n, worst_rel=worst)
     # binding demonstration: flip one observed D index -> must be rejected
